@@ -10,7 +10,7 @@ REPO = os.environ.get('VERIF_REPO', '/repo')
 class TranslateError(Exception):
     pass
 
-MODULES = ['numtypes']
+MODULES = ['numtypes', 'dictdoc']
 
 def write_if_changed(path, text):
     try:
